@@ -285,6 +285,15 @@ class Decoder:
         f, self.i = decode_field(self.t, self.i, self.fp, stops)
         return f
 
+    def fld_or_raw(self):
+        """A field name, or one given without quoting between the target's angle brackets."""
+        if self.t.startswith("⟨", self.i):
+            j = self.t.index("⟩", self.i)
+            f = self.t[self.i + 1:j]
+            self.i = j + 1
+            return f
+        return self.fld()
+
     def func(self, name: str):
         neg = False
         base = name
@@ -360,9 +369,9 @@ class Decoder:
             a = atom(("cmp", field, op, _num(self.t[self.i:j])))
             self.i = j + 1
         elif base in ("fref", "frefsw", "frefew", "frefct"):
-            f1 = self.fld()
+            f1 = self.fld_or_raw()
             self.expect(",")
-            f2 = self.fld()
+            f2 = self.fld_or_raw()
             self.expect(")")
             a = atom(("fieldref", f1, f2, base in ("frefsw", "frefct"), base in ("frefew", "frefct")))
         elif base == "ts":
